@@ -168,7 +168,16 @@ func c06Gen(tier string, seed int64) []fw.Case {
 	return cases
 }
 
+// reasonOf builds a reason of exactly n BYTES; odd codes get multi-byte UTF-8 characters so that a limit
+// counted in characters instead of bytes shows.
 func reasonOf(n int, code int) string {
+	if code%2 == 1 && n >= 2 {
+		s := strings.Repeat("é", n/2)
+		if n%2 == 1 {
+			s += "x"
+		}
+		return s
+	}
 	var sb strings.Builder
 	for i := 0; i < n; i++ {
 		sb.WriteByte(byte('a' + (i+code)%26))
